@@ -2,6 +2,7 @@
 package c11
 
 import (
+	"bytes"
 	"encoding/binary"
 	"errors"
 	"fmt"
@@ -99,8 +100,15 @@ func (s *sys) mention(p prefix) {
 func (s *sys) add(raw uint32, ones int) string {
 	p := prefix{raw & mask(ones), ones}
 	s.hist = append(s.hist, "add "+ipnet(raw, ones).String())
-	if err := s.f.Add(ipnet(raw, ones)); err != nil {
+	arg := ipnet(raw, ones)
+	keepIP, keepMask := append(net.IP(nil), arg.IP...), append(net.IPMask(nil), arg.Mask...)
+	if err := s.f.Add(arg); err != nil {
 		return fmt.Sprintf("Add(%v) returned %v for a valid IPv4 CIDR", ipnet(raw, ones), err)
+	}
+	if !bytes.Equal(arg.IP, keepIP) || !bytes.Equal(arg.Mask, keepMask) {
+		// the caller's value is the caller's: a program that goes on using its address slice (with a longer prefix, as a
+		// probe) means the address it wrote there
+		return fmt.Sprintf("Add changed its argument: %v/%v was handed in, %v/%v is what the caller holds afterwards", keepIP, keepMask, arg.IP, arg.Mask)
 	}
 	if ones == 0 {
 		s.m.matchAll = true
@@ -119,8 +127,13 @@ func (s *sys) add(raw uint32, ones int) string {
 func (s *sys) remove(raw uint32, ones int) string {
 	p := prefix{raw & mask(ones), ones}
 	s.hist = append(s.hist, "remove "+ipnet(raw, ones).String())
-	if err := s.f.Remove(ipnet(raw, ones)); err != nil {
+	arg := ipnet(raw, ones)
+	keepIP, keepMask := append(net.IP(nil), arg.IP...), append(net.IPMask(nil), arg.Mask...)
+	if err := s.f.Remove(arg); err != nil {
 		return fmt.Sprintf("Remove(%v) returned %v for a valid IPv4 CIDR", ipnet(raw, ones), err)
+	}
+	if !bytes.Equal(arg.IP, keepIP) || !bytes.Equal(arg.Mask, keepMask) {
+		return fmt.Sprintf("Remove changed its argument: %v/%v was handed in, %v/%v is what the caller holds afterwards", keepIP, keepMask, arg.IP, arg.Mask)
 	}
 	if ones == 0 {
 		s.m.matchAll = false
@@ -223,6 +236,9 @@ func (s *sys) probeOne(v uint32) string {
 	b := a.To16()
 	if got := s.f.Contains(b); got != want {
 		return fmt.Sprintf("Contains(%v as 16-byte) = %v, model says %v", a, got, want)
+	}
+	if !a.Equal(ip4(v)) || !b.Equal(ip4(v)) || len(a) != 4 || len(b) != 16 {
+		return fmt.Sprintf("Contains changed the address it was asked about: %v became %v / %v", ip4(v), a, b)
 	}
 	return ""
 }
